@@ -1,6 +1,9 @@
 package main
 
-import "strings"
+import (
+	"fmt"
+	"strings"
+)
 
 // Every heap-array symbol remembers how many objects this run had allocated when the symbol came into
 // existence (entry arrays: 0; arrays produced by a havoc: the count at the havoc). A reference read
@@ -38,9 +41,61 @@ func (x *Exec) boundLoadedRef(st *State, t *Term) {
 	}
 	if born == 0 {
 		x.assumeOld(st, t)
+		x.noteBornFact(IntCmp("<=", t, IntBin("*", IntConstI(refK), x.allocBase)), sym, born)
 		return
 	}
-	st.Assume(IntCmp("<=", t, IntBin("*", IntConstI(refK), IntBin("+", x.allocBase, IntConstI(int64(born))))))
+	f := IntCmp("<=", t, IntBin("*", IntConstI(refK), IntBin("+", x.allocBase, IntConstI(int64(born)))))
+	st.Assume(f)
+	x.noteUB(t, born)
+	x.noteBornFact(f, sym, born)
+}
+
+type bornFact struct {
+	sym  string
+	born int
+}
+
+func (x *Exec) noteBornFact(f *Term, sym string, born int) {
+	if x.bornFacts == nil {
+		x.bornFacts = map[string]bornFact{}
+	}
+	x.bornFacts[f.S] = bornFact{sym, born}
+}
+
+// assumeBornAxiom states, once per state and heap-array symbol, the universal form of the
+// born-bound: every reference stored anywhere in that array denotes memory that existed when the
+// array symbol came into being. It is used where the instance for a particular cell mentions a
+// bound variable (inside a quantified invariant): as an antecedent the instance would make the
+// assumed invariant useless, because nothing lets the solver establish it for an arbitrary index.
+func (x *Exec) assumeBornAxiom(st *State, bf bornFact) bool {
+	key := "$bornax:" + bf.sym
+	if _, done := st.ghost[key]; done {
+		return true
+	}
+	srt, ok := x.D.consts[bf.sym]
+	if !ok {
+		return false
+	}
+	var binders []string
+	app := bf.sym
+	cur := srt
+	for i := 0; cur.K == KArray; i++ {
+		v := fmt.Sprintf("|ba?%d|", i)
+		binders = append(binders, fmt.Sprintf("(%s %s)", v, cur.Idx.String()))
+		app = fmt.Sprintf("(select %s %s)", app, v)
+		cur = *cur.Elt
+	}
+	if cur.K != KInt || len(binders) == 0 {
+		return false
+	}
+	bound := IntBin("*", IntConstI(refK), IntBin("+", x.allocBase, IntConstI(int64(bf.born))))
+	if bf.born == 0 {
+		bound = IntBin("*", IntConstI(refK), x.allocBase)
+	}
+	txt := fmt.Sprintf("(forall (%s) (! (<= %s %s) :pattern (%s)))", strings.Join(binders, " "), app, bound.S, app)
+	st.Assume(&Term{S: txt, Sort: SBool})
+	st.ghost[key] = TTrue
+	return true
 }
 
 // boundValueRefs bounds every reference inside a freshly havocked value (a loop-carried variable
@@ -48,20 +103,36 @@ func (x *Exec) boundLoadedRef(st *State, t *Term) {
 // this run allocates later.
 func (x *Exec) boundValueRefs(st *State, v Value) {
 	bound := IntBin("*", IntConstI(refK), IntBin("+", x.allocBase, IntConstI(int64(x.allocCount))))
+	// (no syntactic "old" classification here: a loop-carried reference may denote an object that an
+	// earlier iteration allocated, which did not exist at entry; the recorded bound still lets reads
+	// through it bypass stores to objects allocated later, see heapSelect)
+	old := false
 	var visit func(v Value)
 	visit = func(v Value) {
 		switch vv := v.(type) {
 		case *PtrV:
 			if vv.Ref != nil && !vv.Ref.IsConst {
 				st.Assume(IntCmp("<=", vv.Ref, bound))
+				x.noteUB(vv.Ref, x.allocCount)
+				if old && st.class(vv.Ref) == 0 {
+					st.setClass(vv.Ref, refOld)
+				}
 			}
 		case *SliceV:
 			if !vv.Base.IsConst {
 				st.Assume(IntCmp("<=", vv.Base, bound))
+				x.noteUB(vv.Base, x.allocCount)
+				if old && st.class(vv.Base) == 0 {
+					st.setClass(vv.Base, refOld)
+				}
 			}
 		case *IfaceV:
 			if !vv.Ref.IsConst {
 				st.Assume(IntCmp("<=", vv.Ref, bound))
+				x.noteUB(vv.Ref, x.allocCount)
+				if old && st.class(vv.Ref) == 0 {
+					st.setClass(vv.Ref, refOld)
+				}
 			}
 		case *StructV:
 			for _, f := range vv.Fields {
